@@ -97,6 +97,11 @@ func (s *Set) c03(w *simapi.Write, v *simapi.View) {
 	if w.Actor == "user" && w.Key == s.S.WorkloadKey() && w.Before != nil && w.After != nil && simapi.IntD(w.Before, "spec.replicas", 1) != simapi.IntD(w.After, "spec.replicas", 1) {
 		st.scaledSince = true
 	}
+	if w.Actor == "user" && w.Key.Kind == "Rollout" && w.Before != nil && w.After != nil && specOf(w.Before) != specOf(w.After) {
+		// a plan edit after the step was reported upgraded: which plan "that step's pods" refers to is not fixed by the
+		// statement; like a resize, it is not a reason this monitor uses to judge the rule (C02 / C11 follow plan edits)
+		st.scaledSince = true
+	}
 	if !st.init {
 		return
 	}
@@ -114,7 +119,7 @@ func (s *Set) c03(w *simapi.Write, v *simapi.View) {
 		if st.scaledSince {
 			// which pods survive a user's scale-down, and how fast a scale-up is followed, is up to the workload
 			// controller; the step's pods were reported ready before the resize
-			s.count("c03_obs_raises_after_user_scale_not_judged", 1)
+			s.count("c03_obs_raises_after_user_scale_or_plan_edit_not_judged", 1)
 			return
 		}
 		need := 0
@@ -201,7 +206,7 @@ type c01state struct {
 	maxStep      int
 	lastKey      string
 	epochImg     string // image of the workload template when the current release epoch began
-	rebase       bool // a new epoch began: its first knob write (Initialize) may lower the setting left by the previous one
+	rebase       bool   // a new epoch began: its first knob write (Initialize) may lower the setting left by the previous one
 }
 
 func (s *Set) c01(w *simapi.Write, v *simapi.View) {
@@ -276,6 +281,10 @@ func (s *Set) c01(w *simapi.Write, v *simapi.View) {
 			return
 		}
 		planned, pct := interp.Planned(simapi.Path(stp, "replicas"), R)
+		if raw, _, ok := interp.Resolve(simapi.Path(stp, "replicas"), R, true); ok && !pct && raw > planned {
+			// an int step larger than the workload: the statement bounds the setting by what the step configures
+			planned = raw
+		}
 		s.count("c01_raises_checked", 1)
 		s.addSet("c01_raise_sites", fmt.Sprintf("%s/%s/pct=%v", s.S.Kind, s.S.Style, pct))
 		over := exp - planned
@@ -350,6 +359,15 @@ func (s *Set) c11(w *simapi.Write, v *simapi.View) {
 			planned := interp.PlannedFloor(simapi.Path(batches[cur], "canaryReplicas"), R, s.S.Kind, s.S.Style)
 			tot, ready := s.newReady(v)
 			unsat := tot < planned || (ready < planned && simapi.Path(br, "spec.releasePlan.failureThreshold") == nil) || (planned > 0 && ready == 0)
+			if !enteredReady && w.Before != nil && simapi.Str(w.Before, "status.observedReleasePlanHash") != simapi.Str(br, "status.observedReleasePlanHash") {
+				// the controller acknowledges a changed plan in this very write ("if the plan changes, the state falls
+				// back rather than staying Ready"): staying Ready is only right if the new plan is already met
+				s.count("c11_ready_across_plan_change_checked", 1)
+				if unsat {
+					s.violate("C11", "c11:stays-ready-across-plan-change", fmt.Sprintf("batch %d is kept Ready in the write that acknowledges a changed plan, with %d updated / %d ready pods while the new plan calls for %d of %d", cur, tot, ready, planned, R), w, nil)
+				}
+				return
+			}
 			if !enteredReady {
 				// Ready persisted earlier; after a degrade / scale the controller needs a reconcile to notice. Staying
 				// Ready over three consecutive status writes while unsatisfied is "not falling back".
